@@ -868,6 +868,7 @@ func (kcp *KCP) flush(flushType FlushType) (nextUpdate uint32) {
 		newseg.conv = kcp.conv
 		newseg.cmd = IKCP_CMD_PUSH
 		newseg.sn = kcp.snd_nxt
+		newseg.resendts = currentMs() // due now: Check() must not compare an unset timestamp with the clock
 		kcp.snd_buf.Push(newseg)
 		kcp.snd_nxt++
 		newSegsCount++
